@@ -201,6 +201,11 @@ func init() {
 		m.stepLimit = m.h.stepLimit
 		return nil
 	})
+	vp("ExploreSchedules", func(m *Machine, fr *frame, a []value) value {
+		m.exploreSched = true
+		m.h.noteStub("schedule exploration: preemption at every synchronisation operation, vector-clock happens-before analysis of plain heap accesses")
+		return nil
+	})
 	vp("Fail", func(m *Machine, fr *frame, a []value) value {
 		m.assertCond(false, a[0].(string))
 		return nil
@@ -431,34 +436,36 @@ func init() {
 	// ---------------- sync ----------------
 	lock := func(m *Machine, fr *frame, a []value) value {
 		p := a[0].(*value)
-		m.event("lock", p, nil)
+		m.preempt()
 		st := (*p).(structure)
 		m.block("mutex lock", func() bool { return asInt64(st[0]) == 0 })
 		st[0] = int32(1)
+		m.record("lock", p, 0)
 		return nil
 	}
 	unlock := func(m *Machine, fr *frame, a []value) value {
 		p := a[0].(*value)
-		m.event("unlock", p, nil)
 		st := (*p).(structure)
 		st[0] = int32(0)
+		m.record("unlock", p, 0)
 		return nil
 	}
 	reg("(*sync.Mutex).Lock", lock)
 	reg("(*sync.Mutex).Unlock", unlock)
 	reg("(*sync.RWMutex).Lock", func(m *Machine, fr *frame, a []value) value {
 		p := a[0].(*value)
-		m.event("lock", p, nil)
+		m.preempt()
 		st := (*p).(structure)
 		w := st[0].(structure)
 		m.block("rwmutex lock", func() bool { return asInt64(w[0]) == 0 })
 		w[0] = int32(1)
+		m.record("lock", p, 0)
 		return nil
 	})
 	reg("(*sync.RWMutex).Unlock", func(m *Machine, fr *frame, a []value) value {
 		p := a[0].(*value)
-		m.event("unlock", p, nil)
 		(*p).(structure)[0].(structure)[0] = int32(0)
+		m.record("unlock", p, 0)
 		return nil
 	})
 	reg("(*sync.RWMutex).RLock", intrinsics["(*sync.RWMutex).Lock"])
@@ -477,11 +484,13 @@ func init() {
 		if *cnt < 0 {
 			panic(targetPanic{v: "sync: negative WaitGroup counter"})
 		}
+		m.record("wgdone", a[0].(*value), 0)
 		return nil
 	})
 	reg("(*sync.WaitGroup).Wait", func(m *Machine, fr *frame, a []value) value {
 		cnt := m.wgCounter(a[0].(*value))
 		m.block("WaitGroup.Wait", func() bool { return *cnt == 0 })
+		m.record("wgwait", a[0].(*value), 0)
 		return nil
 	})
 	reg("(*sync.Once).Do", func(m *Machine, fr *frame, a []value) value {
@@ -501,14 +510,16 @@ func init() {
 	})
 	reg("(*sync/atomic.Value).Load", func(m *Machine, fr *frame, a []value) value {
 		p := a[0].(*value)
-		m.event("aload", p, nil)
+		m.preempt()
+		m.record("aload", p, 0)
 		// atomic.Value is struct{ v any }: the stored interface lives in field 0
 		// so that overwriting the struct (x = atomic.Value{}) resets it.
 		return (*p).(structure)[0]
 	})
 	reg("(*sync/atomic.Value).Store", func(m *Machine, fr *frame, a []value) value {
 		p := a[0].(*value)
-		m.event("astore", p, a[1])
+		m.preempt()
+		m.record("astore", p, 0)
 		if a[1].(iface).t == nil {
 			panic(targetPanic{v: "sync/atomic: store of nil value into Value"})
 		}
